@@ -287,6 +287,19 @@ func PutHeader(b []byte, h Header) {
 // BuildMessage wraps a set body into a one-set message with correct length fields.
 func BuildMessage(domain, seq, exportTime uint32, setID uint16, body []byte) []byte {
 	b := make([]byte, HeaderLen+SetHeaderLen+len(body))
+	if exportTime == 1 {
+		// the harnesses' conventional "any export time": a pure function of the content, so that the export times of
+		// a connection's messages are neither constant nor monotonic (exporters restart, clocks are stepped back)
+		h := uint32(2166136261)
+		mix := func(x byte) { h = (h ^ uint32(x)) * 16777619 }
+		for _, x := range []byte{byte(domain), byte(domain >> 8), byte(domain >> 16), byte(domain >> 24), byte(setID), byte(setID >> 8)} {
+			mix(x)
+		}
+		for _, x := range body {
+			mix(x)
+		}
+		exportTime = 1500000000 + h%300000000
+	}
 	PutHeader(b, Header{Version: 10, Length: uint16(len(b)), ExportTime: exportTime, Seq: seq, Domain: domain})
 	binary.BigEndian.PutUint16(b[16:18], setID)
 	binary.BigEndian.PutUint16(b[18:20], uint16(SetHeaderLen+len(body)))
